@@ -2,15 +2,36 @@
 
 Spec -> code: TLC model-checks the implementation-shaped session model (spec/Session.tla, MC_Session.tla)
 exhaustively to a bounded depth (invariants AlignedX / KeyedStoresX / PureResultsX = the property holds
-except for instances matched by a known-finding predicate), shows by vacuity guards that each matcher is
-reachable (design-level counterexamples), and produces call histories: the guards' counterexamples, a
-state cover (the shortest history of every distinct model state to a small depth) and long random walks
-(-simulate). Every history is replayed on a fresh real `ForSys` object over a real 3-frame series of the
-9-cell hex33 tissue (curved interfaces, junctions displaced per frame, distinct time stamps).
+except for instances matched by a known-finding predicate KF_*), shows by vacuity guards that each matcher is
+reachable and that the raw properties fail (design-level counterexamples), and produces call histories: the
+guards' counterexamples, a transition cover of the state graph to a small depth, and long random walks
+(-simulate, 12 calls). Every history is replayed on a fresh real `ForSys` object over a real 3-frame series of
+the 9-cell hex33 tissue (curved interfaces, junctions displaced per frame, distinct time stamps, vertex ids and
+cell listing order differing per frame).
 
-Code -> spec: after EACH call everything observable is logged; floats are projected to symbols by
-comparison (relative 1e-9) with memoised FRESH-OBJECT reference solutions (labelling is projection, the
-verdict "is it the label the specification requires" is TLC's: spec/Trace_Session.tla)."""
+Code -> spec: after EACH call everything observable is logged (ForSys.forces[t], Frame.forces, BigEdge.tension,
+mesh-edge tensions per interface, get_tensions with and without border, Cell.pressure, get_pressures(),
+ForSys.pressures, and — for the implementation-shaped layer only — the matrices' exclusion sets). Floats are
+projected to symbols by comparison (relative 1e-9) with memoised FRESH-OBJECT reference solutions; labelling is
+projection, the verdict "is it the label the specification requires" is TLC's (spec/Trace_Session.tla):
+
+  C10.aligned          i-th reported tension = tension on the i-th internal interface = on each of its mesh edges,
+                       unless excluded by the angle limit of the matrix it was solved with
+  C10.external_zero    external interfaces (interface, mesh edges, table row) stay at zero
+  C10.table_order      the tension table lists exactly the internal interfaces in that order, each row with the
+                       tension stored on that interface
+  C10.cell_pressure    each cell carries the fresh-object pressure of THAT cell; get_pressures() shows it under its id
+  C10.keyed_forces     ForSys.forces[t] = Frame t .forces = frame t's tensions; nothing under an unsolved frame's key
+  C10.keyed_pressures  ForSys.pressures is keyed by frame and pressures[t] holds frame t's cell pressures
+  C10.pure             everything reported for t equals what a fresh object reports after the last calls' arguments
+  C10.raised           an enabled call raised
+  drift.*              (note only) Session.tla's own successor state disagrees with the observation
+
+Readings committed to (DESIGN 5.5): "last call's arguments" are per frame — the last build_force_matrix (a
+get_system_velocity_per_frame counts as one, fit dlite, for every frame it visits), the last solve_stress that
+returned, the tensions present at the last build_pressure_matrix before the last solve_pressure; a call that raised
+reports nothing, the previous results must stand; a frame never solved reports what a fresh object reports (None,
+zeros, None); equality is relative 1e-9 with the fresh-object value."""
 import json
 import os
 import random
@@ -589,7 +610,7 @@ def run(ctx):
     exh = [tlc_start(ctx, c[:-4], c, env, heap=ctx.pick("2g", "4g")) for c in
            ctx.pick(["MC_Session.cfg", "MC_Session_nf1.cfg"],
                     ["MC_Session_thorough.cfg", "MC_Session_thorough_nf1.cfg", "MC_Session_thorough_nf3.cfg"])]
-    nwalks = ctx.pick(240, 3000)
+    nwalks = ctx.pick(200, 3000)
     cover = tlc_start(ctx, "cover", ctx.pick("MC_Session_cover.cfg", "MC_Session_cover_thorough.cfg"), env)
     sim = tlc_start(ctx, "sim", "MC_Session_sim.cfg", env,
                     extra=("-simulate", f"num={nwalks}", "-depth", "13", "-seed", str(ctx.seed + 1)))
@@ -629,7 +650,7 @@ def run(ctx):
     rng = random.Random(ctx.seed)
     maximal = [h for h in paths if len(h) == plen]
     if ctx.quick:
-        keep = [h for h in paths if len(h) == 1] + rng.sample(maximal, min(160, len(maximal)))
+        keep = [h for h in paths if len(h) == 1] + rng.sample(maximal, min(120, len(maximal)))
     else:
         keep = maximal
     ctx.extra["transition_cover"] = {"depth": plen, "transitions_in_graph": len(paths), "replayed": len(keep),
